@@ -87,6 +87,9 @@ def generate(rng, tier):
             nan_entries = []
             if cv in ('fixed', 'crossvalidation') and rng.random() < 0.4:
                 nan_entries = sorted(rng.sample(range(shape[2]), rng.randint(1, shape[2] - 1)))
+            nan_model = None
+            if cv in ('fixed', 'crossvalidation') and M >= 2 and rng.random() < 0.3:
+                nan_model = rng.choice([0, 0, M - 1])      # a model whose every evaluation is NaN (seeded change C06-m10), often listed first
             var = gen_var(rng, M, allow_stack=(cv == 'dual_bootstrap'))
             if cv == 'dual_bootstrap' and var['form'] == 'stack' and rng.random() < 0.6:
                 nr, npat = rng.choice([3, 5, 8]), rng.choice([4, 6, 9])
@@ -94,7 +97,7 @@ def generate(rng, tier):
             nc8 = [rng.randint(8, 30) for _ in range(int(np.prod(ncs)))]
             out.append(dict(kind='result:' + cv, call='result', M=M, cv=cv, shape=list(shape), ev8=ev, nan_samples=nan_samples,
                             nan_entries=nan_entries, var=var, n_rdm=nr, n_pattern=npat, dof=rng.randint(1, 30), nc_shape=list(ncs), nc8=nc8,
-                            perm=rng.sample(range(M), M), seed=rng.randrange(10 ** 6)))
+                            perm=rng.sample(range(M), M), seed=rng.randrange(10 ** 6), nan_model=nan_model))
         elif kind == 'evalboot':
             # results of the bootstrap evaluation routines themselves: their reported variances are the documented n/(n-1)
             # contrasts of the stored covariance, n the number of resampled units -- also with more RDMs than conditions
@@ -160,6 +163,9 @@ def make_result(c, perm=None, bump=None):
         ev = np.array(c['ev8'], float).reshape(c['shape']) / 8
         for k in c['nan_entries']:
             ev[0, k % M, k] = np.nan
+    if c.get('nan_model') is not None:
+        ev = ev.copy()
+        ev[:, c['nan_model']] = np.nan
     va = var_array(c['var'])
     nc = np.array(c['nc8'], float).reshape(c['nc_shape']) / 32
     if bump is not None:
